@@ -29,7 +29,7 @@ class GetTestResult:
   ]
   loops = {0: dict(invariant=["forall(j, 0, _i, test_info.test_results[j].test_name != test_name)"])}
   total = True
-  props = ["C16", "C18"]
+  props = ["C01", "C02", "C03", "C05", "C06", "C16", "C17", "C18"]
 
 
 @contract(f"{U}::GetAttachedInfo")
@@ -44,7 +44,7 @@ class GetAttachedInfo:
   ]
   loops = {0: dict(invariant=["forall(j, 0, _i, test_info.attached_info[j].info_name != info_name)"])}
   total = True
-  props = ["C16", "C18"]
+  props = ["C01", "C02", "C03", "C05", "C06", "C16", "C17", "C18"]
 
 
 @contract(f"{U}::GetHighestSeverity")
@@ -67,7 +67,7 @@ class GetHighestSeverity:
       "highest_severity == -1 or exists(j, 0, _i, test_info.test_results[j].result and "
       "test_info.test_results[j].severity == highest_severity)"])}
   total = True
-  props = ["C16", "C18"]
+  props = ["C01", "C02", "C03", "C05", "C06", "C16", "C17", "C18"]
 
 
 @contract(f"{U}::SetTestResult")
@@ -110,7 +110,7 @@ class SetTestResult:
               "test_info.test_results[j].severity == old(test_info.test_results[j].severity)))"),
   ]
   total = True
-  props = ["C16", "C18"]
+  props = ["C01", "C02", "C03", "C05", "C06", "C16", "C17", "C18"]
 
 
 @contract(f"{U}::AttachInfo")
@@ -137,7 +137,7 @@ class AttachInfo:
               "test_info.attached_info[j].info_name == info_name))"),
   ]
   total = True
-  props = ["C16", "C18"]
+  props = ["C01", "C02", "C03", "C05", "C06", "C16", "C17", "C18"]
 
 
 @contract(f"{U}::Bytes2Int")
